@@ -89,7 +89,7 @@ struct Proc {
     started: Instant,
 }
 
-fn replay_file(decoder: &str, file: &Path, timeout: Duration) -> (Option<i32>, String, bool) {
+pub fn replay_file(decoder: &str, file: &Path, timeout: Duration) -> (Option<i32>, String, bool) {
     let exe = std::env::current_exe().unwrap();
     let mut cmd = Command::new(exe);
     cmd.args(["replay", decoder, file.to_str().unwrap(), "--quiet"]).stdin(Stdio::null()).stdout(Stdio::piped()).stderr(Stdio::null());
